@@ -606,22 +606,18 @@ func c09HtmlXnetSafe(doc []byte) bool {
 // ---------- known findings of this slice and of C03 that explain a token-stream difference ----------
 
 // `</script` etc. followed by something that is neither a letter nor whitespace, `/`, `>`: the minifier's lexer ends the raw text there, the standard does not
-var c09HtmlEndNoDelim = regexp.MustCompile("(?i)</(script|style|textarea|title|iframe|xmp)[^a-zA-Z \\t\\n\\f\\r/>]")
-// a downlevel-hidden conditional comment whose inside has a reference to `>` right after `--` or `--!`
-var c09HtmlCondClose = regexp.MustCompile("(?is)<!--\\[if [^>]*>.*--!?&(gt|#62|#x3e);?")
+var c09HtmlEndNoDelim = regexp.MustCompile("(?is)</(script|style|textarea|title|iframe|xmp)[^a-zA-Z \\t\\n\\f\\r/>]|<!--.*<script[^a-zA-Z \\t\\n\\f\\r/>]")
 // an end tag with a quoted attribute before its first `>` (the lexer ends the tag at the first `>`, the standard after the quote)
 var c09HtmlEndQuoted = regexp.MustCompile("</[a-zA-Z][^>]*[\"']")
 
-// `</iframe` hidden behind a reference or a JS/CSS escape inside an iframe
-var c09HtmlIframeEnd = regexp.MustCompile("(?i)(&lt;?|&#0*60;?|&#x0*3c;?|<\\\\)/iframe")
 var c09HtmlRefLike = regexp.MustCompile(`(?i)&(amp;|#0*38;|#x0*26;|[#0-9A-Za-z]*)$`)
 var c09HtmlTagLike = regexp.MustCompile(`<[/!]?-?$`)
 
 // which kinds of difference a known finding explains (an attribute difference is never excused)
 var c09HtmlExplains = map[string]string{
-	"K-C09-HTML-1": "text tag extra comment", "K-C09-HTML-2": "raw text tag extra", "K-C09-HTML-3": "text tag extra comment",
+	"K-C09-HTML-1": "text tag extra comment", "K-C09-HTML-2": "raw text tag extra", 
 	"K-C09-HTML-4": "text tag extra", "K-C09-HTML-5": "text tag extra", "K-C09-HTML-6": "raw text tag extra comment", "K-C09-HTML-7": "raw text tag extra comment",
-	"K-C09-HTML-10": "text tag extra comment raw", "K-C09-HTML-8": "raw text tag extra comment secondpass", "K-C09-HTML-9": "raw text tag extra secondpass", "K-C03-8": "text", "K-C03-11": "raw text tag extra", "OBS-embedded-ref": "embedded",
+	 "K-C03-8": "text", "K-C03-11": "raw text tag extra", "OBS-embedded-ref": "embedded",
 }
 
 // c09HtmlKnownClasses names the known findings (of this slice and of C03) whose narrow trigger the generated document
@@ -636,9 +632,6 @@ func c09HtmlKnownClasses(in []byte, items []c09HtmlItem) (ks []string) {
 	if c09HtmlEndNoDelim.Match(in) {
 		ks = append(ks, "K-C09-HTML-2")
 	}
-	if c09HtmlCondClose.Match(in) {
-		ks = append(ks, "K-C09-HTML-3")
-	}
 	if has("<xmp") || has("<listing") || has("<noembed") || has("<noframes") || has("<plaintext") || has("amp-boilerplate") {
 		ks = append(ks, "K-C03-11")
 	}
@@ -650,31 +643,11 @@ func c09HtmlKnownClasses(in []byte, items []c09HtmlItem) (ks []string) {
 			break
 		}
 	}
-	if has("<&") {
-		ks = append(ks, "K-C09-HTML-10")
-	}
 	if c09HtmlEndQuoted.Match(in) {
 		ks = append(ks, "K-C09-HTML-7")
 	}
-	// a script whose text opens a script-data-escaped section (the JS minifier may remove or rewrite what balanced it)
-	cur := ""
-	for _, it := range items {
-		switch it.kind {
-		case 'S':
-			cur = it.name
-		case 'E':
-			cur = ""
-		case 'T':
-			if cur == "script" && strings.Contains(it.raw, "<!--") {
-				ks = append(ks, "K-C09-HTML-8")
-			}
-		}
-	}
 	if c09HtmlEmbeddedRef(items) {
 		ks = append(ks, "OBS-embedded-ref")
-	}
-	if has("<iframe") && c09HtmlIframeEnd.Match(in) {
-		ks = append(ks, "K-C09-HTML-9")
 	}
 	if n := len(items); n > 0 && items[n-1].kind == 'Z' && items[n-1].name == "tag" {
 		ks = append(ks, "K-C09-HTML-5")
@@ -1243,6 +1216,30 @@ func c09HtmlCorpus(repo string, maxBytes int) (names []string, docs [][]byte) {
 	return
 }
 
+// inputs of the fixed findings (all variants tried while hunting)
+var c09HtmlFixedCorpus = []string{
+	// K-C09-HTML-3: the recursive result would close the conditional comment
+	"<!--[if IE]><p title=\"a--&gt;b\">x</p><![endif]-->z", "<!--[if IE]><p title=\"a--!&gt;b\">x</p><![endif]-->z",
+	"<!--[if IE]><p title=\"a--&#62;b\">x</p><![endif]-->z", "<!--[if IE]><p>a--&gt;b</p><![endif]-->z", "<!--[if IE]>--<br>&gt;<![endif]-->z",
+	"<!--[if IE]><p title=\"a--&gt;b\" class=\" c  d \">  x  &amp;  y </p><![endif]-->z", "<!--[if lt IE 9]><a href=\"x--&gt;\">  l  </a><![endif]--><p>q</p>",
+	// K-C09-HTML-8: script-data escaped / double-escaped state
+	"<script>var s = \"<!--\", t = \"<script>\", u = \"</script>\";</script><p>after</p>", "<script>var s = \"<!--<script>\"; // </script>\n</script><p>after</p>",
+	"<script>var s = \"<!--<script>\"; /* </script> */</script><p>after</p>", "<script>var a = \"<!--\"; if (x < script > y) z()</script><p>after</p>",
+	"<script>var s = `<!--<script>`; var t = `</script>`;</script><p>after</p>", "<script>document.write(\"<!--<script>alert(1)</script>-->\")</script><p>after</p>",
+	"<script><!--\ndocument.write(\"<script>x</script>\");\n//--></script><p>after</p>", "<script>var r = /<!--<script>/; var q = 1 </script>/ 2;</script><p>after</p>",
+	"<script>var t0 = 'a<!--<script>b';\nvar s1 = \"a</scriptx>b\";/* < /script> */ // </script\n\n</script><p>  y  z</p>",
+	// K-C09-HTML-9: iframe content
+	"<iframe><b title=\"&lt;/iframe&gt;\">x</b></iframe><p>after</p>", "<iframe><script>var s = \"<\\/iframe>\";</script></iframe><p>after</p>",
+	"<iframe><a href=\"&#60;/iframe \">y</a></iframe><p>after</p>", "<iframe><b title=\"&amp;&lt;/iframe&gt;\" class=\" a  b \">  x  &amp;  y </b></iframe>z",
+	"<iframe><style>a{content:\"\\3c/iframe>\"}</style></iframe><p>after</p>", "<iframe><p>  a  b </p></iframe><p>after</p>",
+	// K-C09-HTML-10: reference directly after a raw `<`
+	"<p><&#115;cript>alert(1)<&#47;script></p>", "<p><&#x73;cript>alert(1)</script></p>", "<p><&#98;>x</p>", "<p><&#47;p>x</p>", "<p><&#33;-- x --></p>", "<p><&sol;b></p>",
+	"<p><&excl;-- x</p>", "<p><&quest;x></p>", "<p><&#x62; title=1>x</p>", "<title><&#47;title>x</title>", "<textarea><&#47;textarea>x</textarea>", "<p>1 <&#50; 3</p>", "<p>a <&amp; b</p>", "<p><&lt;b></p>",
+	"<pre>  <&#98;>  x </pre>", "<p>a  <&#98;>  &amp;  c</p>",
+	// K-C09-3 (coordinator): white space removed by the CSS/JS minifier inside `< /style >`
+	"<style>a{b:< /style >}</style><p>x</p>", "<script>x = a< /script >/.test(b)</script>", "<style>a{b:\"<\"/style }</style><p>x</p>",
+}
+
 // ---------- stages ----------
 
 func c09HtmlStages(c *Ctx) error {
@@ -1421,9 +1418,27 @@ func c09HtmlStages(c *Ctx) error {
 		st.End()
 	}
 
+	// (3b) fixed findings: every variant input must pass all clauses, under every Keep* mask that matters and both registries
+	{
+		st := c.R.StartStage("c09-html-fixed", "regression corpus of the fixed findings K-C09-HTML-3 (3c66722), -8 (1557146, a80add2), -9 (1557146), -10 (6635adc) and K-C09-3 (1557146): every variant input × {default, KeepSpecialComments, KeepComments, KeepQuotes, KeepWhitespace} × {all sub-minifiers, none}; all clauses of the oracle, no exclusion; non-trivial = output differs from input")
+		var cases []c09HtmlCase
+		for _, in := range c09HtmlFixedCorpus {
+			for _, mask := range []int{0, 2, 1, 32, 64, 2 | 16 | 32} {
+				for _, sub := range []bool{true, false} {
+					cases = append(cases, c09HtmlCase{in: []byte(in), cfg: c09HtmlCfg{mask: mask, sub: sub}, label: "fixed"})
+				}
+			}
+		}
+		if err := c09HtmlEval(c, st, cases); err != nil {
+			return err
+		}
+		st.Exhaustive = true
+		st.End()
+	}
+
 	// (4) the theorem's guard on real token streams
 	{
-		st := c.R.StartStage("c09-html-model", "documents (generated elements and composed documents <= 20 KB, tests/html/corpus, html_test.go inputs) lexed by the REAL lexer/TokenBuffer (c03Lex), random Keep* masks, no sub-minifier: model.c09.html.walk = model output + the decidable guard of html_output_retokenises_partial + whether the standard's tokenizer reads the output as the intended pieces; the model output must equal the real html.Minify output (C03 owns that comparison: counted, not reported here) and guard ⇒ re-tokenisation must hold (a counter-instance would contradict the theorem: diff); distribution = which kind of step first leaves the guard; non-trivial = the guard holds")
+		st := c.R.StartStage("c09-html-model", "documents (generated elements and composed documents <= 20 KB, tests/html/corpus, html_test.go inputs) lexed by the REAL lexer/TokenBuffer (c03Lex), random Keep* masks, no sub-minifier or (35 %) the recording stub minifiers of C03 for every media type (their results pass through html.go's re-lex check): model.c09.html.walk = model output + the decidable guard of html_output_retokenises_partial + whether the standard's tokenizer reads the output as the intended pieces; the model output must equal the real html.Minify output (C03 owns that comparison: counted, not reported here) and guard ⇒ re-tokenisation must hold (a counter-instance would contradict the theorem: diff); distribution = which kind of step first leaves the guard; non-trivial = the guard holds")
 		type mc struct {
 			doc  []byte
 			mask int
@@ -1458,12 +1473,17 @@ func c09HtmlStages(c *Ctx) error {
 			}
 			mask := c09HtmlMask(r)
 			o := c03OptsOf(mask)
-			out, err, crash := c03RunReal(d, o, false)
+			stub := r.Chance(35) // recording stubs for every media type: their results go through html.go's re-lex check
+			out, err, crash := c03RunReal(d, o, stub)
 			if err != nil || crash != "" {
 				continue
 			}
+			sm := 0
+			if stub {
+				sm = 1
+			}
 			cases = append(cases, mc{d, mask, out})
-			lines = append(lines, "model.c09.html.walk "+h.Int(int64(mask))+" "+h.Int(0)+" "+c03Ext(toks, o, false)+" "+c03EncodeToks(toks))
+			lines = append(lines, "model.c09.html.walk "+h.Int(int64(mask))+" "+h.Int(int64(sm))+" "+c03Ext(toks, o, stub)+" "+c03EncodeToks(toks))
 		}
 		rep, err := h.Eval(lines)
 		if err != nil {
